@@ -38,7 +38,31 @@ def run(tier):
     # also in a plain release build (no debug assertions, wrapping arithmetic): what a user ships
     plain = vf.build_harness("plain")
     vf.exec_and_validate(chk, plain, "tex", "TV_Tex", rnd, jvms=10, what="sampler call (plain release build)")
+    # the samplers under the other float backends: the repeating sampler's floor is the backend's
+    # (built-in fallback without any fp feature, libm, micromath)
+    probe = os.path.join(vf.HARNESS, "floatprobe")
+    bk = os.path.join(d, "tex_backends.ndjson")
+    with open(bk, "w") as fw:
+        for name, feats in (("none", []), ("libm", ["libm"]), ("mm", ["mm"])):
+            vf._built.pop(("release", probe, tuple(feats)), None)
+            pb = vf.build_harness("release", crate=probe, features=feats, bin_name="floatprobe")
+            fw.write(vf.run_harness(pb, [name, vf.seed(), "tex" if tier == "quick" else "tex-thorough"]))
+    nrec, nev, badb = vf.validate_trace("TV_Tex", bk, jvms=6)
+    vf.log("[tv] samplers under the fallback / libm / mm backends: %d calls judged by TV_Tex: %d rejected" % (nrec, len(badb)))
+    chk.cov["traces_validated_against_impl"] += nrec
+    chk.cov["evaluations"] += nev
+    for b in badb:
+        chk.violation(b["key"], {"sub": "floatprobe-tex", "record": b["record"]},
+                      what="sampler call %s rejected by TV_Tex: %s" % (b["key"], json.dumps(b["record"])[:300]))
     chk.cov["distinct_nontrivial"] = chk.cov["traces_validated_against_impl"]
     chk.cov["trusted_base"] = ["TLC + CommunityModules", "harness/src/tex.rs recorder and f32 decoding (util::f32_rec)"]
     chk.assumptions = ["texel type (i32,i32); coordinates >= 2^31 in magnitude / NaN may address any texel"]
     return chk.finish()
+
+
+def replay(path):
+    obj = json.load(open(path))
+    if obj.get("sub") == "floatprobe-tex":
+        # the "case" is a feature build of the probe: re-run the whole quick check
+        return run("quick")
+    return vf.replay("C12", path)
